@@ -262,7 +262,7 @@ void ICMP::write_serialization(uint8_t* buffer, uint32_t total_sz) {
     }
 
     if (has_extensions()) {
-        uint8_t* extensions_ptr = buffer + sizeof(icmp_header);
+        uint8_t* extensions_ptr = buffer + header_size();
         if (inner_pdu()) {
             // Get the size of the next pdu, padded to the next 32 bit boundary
             uint32_t inner_pdu_size = get_adjusted_inner_pdu_size();
